@@ -73,9 +73,20 @@ def pos(ctx, name, rng):
     return v
 
 
+def new_prec(ctx):
+    """PrecipitateParameters() also builds a strain-energy object that tabulates Lebedev nodes (trigonometry on np.pi):
+    irrelevant here, so it is constructed with the numeric pi even when the harness runs with the symbolic constant"""
+    sp = ctx.opts.get("symbolic_pi", False)
+    ctx.opts["symbolic_pi"] = False
+    try:
+        return PrecipitateParameters("P")
+    finally:
+        ctx.opts["symbolic_pi"] = sp
+
+
 def mk_prec(ctx, site, sym_k=True, rmin=True):
     """real PrecipitateParameters with symbolic gamma > 0, Rmin > 0 and (gb sites) symbolic gbEnergy = 2 k gamma"""
-    p = PrecipitateParameters("P")
+    p = new_prec(ctx)
     p.nucleation.setNucleationType(site)
     gamma = pos(ctx, "gamma", (0.05, 0.5))
     if IS_GB[site] or sym_k:
@@ -378,11 +389,9 @@ def cache(ctx, site0="grain boundaries", ops=("gamma", "gbe", "site:grain edges"
     in between, so that the cache is populated) each cached factor equals the current description's function of the
     *current* gbEnergy / (2 gamma).  owned: the object belongs to a PrecipitateParameters and gamma is set there."""
     if owned:
-        p = PrecipitateParameters("P"); nb = p.nucleation
+        p = new_prec(ctx); nb = p.nucleation
     else:
         p = None; nb = NucleationBarrierParameters(site="bulk", gamma=0.2, gbEnergy=0.1)
-    st = {"site": site0, "g": None, "e": None}
-
     gvals = iter([0.3, 0.45, 0.25, 0.35, 0.4])
 
     def fresh(tag):
@@ -390,15 +399,35 @@ def cache(ctx, site0="grain boundaries", ops=("gamma", "gbe", "site:grain edges"
         # corner formulas with their nested radicals); gbEnergy stays symbolic
         g = next(gvals) if conc_gamma else pos(ctx, "gamma" + tag, (0.2, 0.5))
         e = ctx.real("gbE" + tag, (0.0, 0.3)); ctx.assume(e >= 0)
-        return g, e
+        return g, e, pos(ctx, "dG" + tag, (0.5, 3.0))
 
-    def admissible(site, g, e):
+    # all inputs and all admissibility assumptions first (the states the sequence passes through are known statically)
+    g, e, dG = fresh("0")
+    plan = [("init", site0, g, e, dG)]
+    site = site0
+    for i, op in enumerate(ops):
+        g2, e2, dG = fresh("s%d" % (i + 1))
+        if op == "gamma":
+            g = g2
+        elif op == "gbe":
+            e = e2
+        elif op == "both":
+            g, e = g2, e2
+        else:
+            site = op.split(":")[1]
+        plan.append(("s%d:%s" % (i + 1, op), site, g, e, dG))
+    for (tag, site, g, e, dG) in plan:
         ctx.assume(e <= 2 * KMAX[site] * g, "gbEnergy/(2 gamma) within the limit of the current site type")
 
-    def check(tag):
-        g, e = st["g"], st["e"]
+    def setgamma(g):
+        if owned:
+            p.gamma = g
+        else:
+            nb.gamma = g
+
+    def check(tag, site, g, e, dG):
         d = nb.description
-        ctx.prove(tag + ": description is the named site type", type(d) is CLS[st["site"]])
+        ctx.prove(tag + ": description is the named site type", type(d) is CLS[site])
         kref = e / (2 * g)
         got = [sc(nb.GBk), sc(nb.areaFactor), sc(nb.volumeFactor), sc(nb.gbRemoval), sc(nb.areaRemoval)]
         want = [kref, sc(d.areaFactor(kref, setInvalidToNan=False)), sc(d.volumeFactor(kref, setInvalidToNan=False)),
@@ -408,48 +437,27 @@ def cache(ctx, site0="grain boundaries", ops=("gamma", "gbe", "site:grain edges"
             ctx.prove("%s: cached %s is that of the current energies and site" % (tag, nm), ctx.eq(x, y))
         ctx.prove(tag + ": stored energies are the ones set", ctx.all([ctx.eq(nb.gamma, g), ctx.eq(nb.gbEnergy, e)]))
         # the barrier uses the current factors (a positive driving force)
-        dG = pos(ctx, "dG" + tag, (0.5, 3.0))
         ctx.prove(tag + ": Rcrit uses the current factors",
                   ctx.eq(sc(nb.Rcrit(dG)) * (3 * want[2] * dG), 2 * (want[1] * g - want[3] * e)))
 
-    g, e = fresh("0"); admissible(site0, g, e)
-    nb.setNucleationType(site0)
-    if owned:
-        p.gamma = g
-    else:
-        nb.gamma = g
+    tag, site, g, e, dG = plan[0]
+    nb.setNucleationType(site)
+    setgamma(g)
     nb.gbEnergy = e
-    st.update(g=g, e=e)
-    check("init")
-    for i, op in enumerate(ops):
-        tag = "s%d" % (i + 1)
-        g2, e2 = fresh(tag)
+    check(*plan[0])
+    prev = plan[0]
+    for op, st in zip(ops, plan[1:]):
+        tag, site, g, e, dG = st
         if op == "gamma":
-            admissible(st["site"], g2, st["e"])
-            if owned:
-                p.gamma = g2
-            else:
-                nb.gamma = g2
-            st["g"] = g2
+            setgamma(g)
         elif op == "gbe":
-            admissible(st["site"], st["g"], e2)
-            nb.gbEnergy = e2
-            st["e"] = e2
+            nb.gbEnergy = e
         elif op == "both":
-            admissible(st["site"], g2, e2)
-            # the intermediate pair (new gamma, old gbEnergy) is never read
-            if owned:
-                p.gamma = g2
-            else:
-                nb.gamma = g2
-            nb.gbEnergy = e2
-            st.update(g=g2, e=e2)
+            setgamma(g)              # the intermediate pair (new gamma, old gbEnergy) is never read
+            nb.gbEnergy = e
         else:
-            site = op.split(":")[1]
-            admissible(site, st["g"], st["e"])
             nb.setNucleationType(site)
-            st["site"] = site
-        check(tag + ":" + op)
+        check(*st)
 
 
 # =========================================================================== 5. available nucleation sites
@@ -615,6 +623,24 @@ def noniso(ctx, N=2):
     ctx.safe("divisions well defined")
 
 
+def barrier_api(ctx, site="grain edges"):
+    """NucleationBarrierParameters.Rcrit / Gcrit (public API) at the critical radius: Rcrit(dG) = 2 gamma / dG and
+    Gcrit(dG, Rcrit(dG)) = (4 pi/3 gamma Rcrit^2) * volumeFactor / (4 pi/3) for every positive driving force"""
+    p, gamma, k = mk_prec(ctx, site, rmin=False)
+    dp = pos(ctx, "dG", (0.5, 3.0))
+    b, a, c = factors(ctx, p, site)
+    if site != "grain boundaries":
+        ctx.assume(c > 0, "volume factor of edge/corner nuclei positive inside the admissible range")
+    Rp = sc(p.nucleation.Rcrit(dp))
+    ctx.observe("Rp", Rp)
+    ctx.prove("Rcrit(dG) is the spherical 2 gamma / dG", ctx.eq(Rp * dp, 2 * gamma))
+    # Gcrit at that radius (handed in as the value just established, as nucleationBarrier's callers do)
+    Gp = sc(p.nucleation.Gcrit(dp, Rp))
+    ctx.observe("Gp", Gp)
+    ctx.prove("Gcrit(dG, Rcrit(dG)) = spherical barrier * volumeFactor/(4 pi/3)", ctx.eq(Gp * dp * dp, 4 * gamma * gamma * gamma * c))
+    ctx.prove("Gcrit(dG, Rcrit(dG)) >= 0", ctx.le(0.0, Gp))
+
+
 _FB = [NR.nucleationBarrier, NucleationBarrierParameters.Rcrit, NucleationBarrierParameters.Gcrit]
 _FR = _FB + [NR.zeldovich, NR.betaBinary1, NR.betaBinary2, NR.betaMulti, NR.incubationTime, NR.nucleationRate, NR.nucleationRadius]
 _ST = ["thermodynamic backend (getTracerDiffusivity, getInterfacialComposition, impingementFactor, getDrivingForce): uninterpreted functions "
@@ -647,6 +673,8 @@ _FD = [NUC.NucleationDescriptionBase.areaFactor, NUC.NucleationDescriptionBase.v
        NUC.GrainCornerDescription.K, NUC.GrainCornerDescription.phi, NUC.GrainCornerDescription.delta,
        NucleationBarrierParameters.setNucleationType]
 HARNESSES = [
+    Harness("C14.barrier_api", barrier_api, functions=_FB[1:], opts={"symbolic_pi": True}, assumptions=_AR,
+            params={"quick": [{"site": s} for s in SITES[2:]], "thorough": [{"site": s} for s in SITES[2:]]}),
     Harness("C14.cf_identity", cf_identity, functions=_FD, opts={"symbolic_pi": True},
             params={"quick": [{"site": s, "n": 1} for s in SITES[1:]] + [{"site": "grain edges", "n": 2}],
                     "thorough": [{"site": s, "n": 2} for s in SITES]}),
